@@ -50,18 +50,21 @@ Definition create (t : vtype) : val :=
 Definition wrap64 (z : Z) : Z := (z + 2 ^ 63) mod 2 ^ 64 - 2 ^ 63.
 Definition Second : Z := 1000000000.
 
-(* Go's / and % on int64 (truncated; the divisor is not zero at the call sites) *)
-Definition goquot (a b : Z) : Z := wrap64 (Z.quot a b).
-Definition gorem (a b : Z) : Z := Z.rem a b.
+(* Go's / and % on int64: truncated; a zero divisor is a runtime panic ("integer divide by zero") *)
+Definition godiv (a b : Z) : res Z := if b =? 0 then Crash else OK (wrap64 (Z.quot a b)).
+Definition gorem (a b : Z) : res Z := if b =? 0 then Crash else OK (Z.rem a b).
 
-(* x << n and x >> n for 0 <= n (Go: count >= 64 gives 0, resp. the sign) *)
+(* x << n and x >> n on int64 with a signed count: a negative count is a runtime panic
+   ("negative shift amount"); a count >= 64 gives 0, resp. the sign *)
 Definition shl64 (x n : Z) : Z := if 64 <=? n then 0 else wrap64 (Z.shiftl x n).
 Definition sar64 (x n : Z) : Z := if 64 <=? n then (if x <? 0 then -1 else 0) else Z.shiftr x n.
+Definition goshl (x n : Z) : res Z := if n <? 0 then Crash else OK (shl64 x n).
+Definition goshr (x n : Z) : res Z := if n <? 0 then Crash else OK (sar64 x n).
 
 (* math/bits.RotateLeft64(uint64(x), k) as int64, 0 <= k < 64 *)
 Definition rotl64 (x k : Z) : Z :=
   let u := x mod 2 ^ 64 in
-  wrap64 ((Z.shiftl u k) mod 2 ^ 64 + Z.shiftr u (64 - k)).
+  wrap64 (Z.lor ((Z.shiftl u k) mod 2 ^ 64) (Z.shiftr u (64 - k))).
 
 (* time.Duration.Seconds(): float64(d/Second) + float64(d%Second)/1e9 *)
 Definition dur_seconds (ns : Z) : float :=
